@@ -369,16 +369,41 @@ impl Default for DsCfg {
     }
 }
 
-/// top-level data set, optionally with an encapsulated pixel data element
+/// put an encapsulated Pixel Data element into the first item of the first sequence that has items (any depth):
+/// e.g. a compressed icon inside Icon Image Sequence
+fn nest_pixel_sequence(elems: &mut Vec<Elem>, p: &Elem) -> bool {
+    for e in elems.iter_mut() {
+        if let Val::Seq { items, .. } = &mut e.v {
+            if let Some(it) = items.first_mut() {
+                // prefer going deeper when the item itself holds a sequence with items
+                if nest_pixel_sequence(&mut it.elems, p) {
+                    return true;
+                }
+                it.elems.retain(|x| (x.g, x.e) != (0x7FE0, 0x0010));
+                it.elems.push(p.clone());
+                let v = std::mem::take(&mut it.elems);
+                it.elems = normalize(v);
+                return true;
+            }
+        }
+    }
+    false
+}
+
+/// top-level data set, optionally with an encapsulated pixel data element (at the top level in 15% of the cases,
+/// inside a sequence item in 8%)
 pub fn dataset(cfg: DsCfg) -> BoxedStrategy<Vec<Elem>> {
     let base = elems(cfg.max_depth, 0..cfg.max_top + 1);
     if cfg.pixel_seq {
-        (base, proptest::option::weighted(0.15, pixel_sequence()))
-            .prop_map(|(mut e, p)| {
+        (base, proptest::option::weighted(0.15, pixel_sequence()), proptest::option::weighted(0.08, pixel_sequence()))
+            .prop_map(|(mut e, p, nested)| {
                 if let Some(p) = p {
                     e.retain(|x| (x.g, x.e) != (0x7FE0, 0x0010));
                     e.push(p);
                     e = normalize(e);
+                }
+                if let Some(p) = nested {
+                    nest_pixel_sequence(&mut e, &p);
                 }
                 e
             })
